@@ -293,6 +293,8 @@ async def _scenario(rng, d):
     while waited < 3.0e4:
         n = len(world.events)
         await asyncio.sleep(2.0)
+        for _ in range(5):
+            await asyncio.sleep(0)
         waited += 2.0
         idle = all(not p_.buf for p_ in link.pipes.values()) if link.framing == 'bytes' else \
             all(q.empty() for q in link.queues.values())
